@@ -8,7 +8,7 @@ import common as C
 import execpipe as X
 
 PROP = "C16"
-RULE = ("exhaustive product: declaration sets (1-2 globals, thorough: up to 3) x quantifier in {none, ?, *, +} x default present/absent x "
+RULE = ("exhaustive product: declaration sets (1-2 globals, thorough: up to 3, sampled for 3) x quantifier in {none, ?, *, +} x default present/absent x "
         "supply patterns (absent, string, integer, boolean, null, list, empty list, supplied through an outer variable set) x {strict, "
         "lazy}; the program reads every global at block depths 0-3 (stanza, if arm, for body, scan arm) and iterates list-typed ones; "
         "plus the static rules (redeclare, hide, assign) which must be rejected at load time; caller's variable sets are compared "
@@ -51,14 +51,17 @@ def make_cases(tier):
     r = A.rng(16)
     for ng in range(1, maxg + 1):
         combos = list(itertools.product(one, repeat=ng))
+        if ng >= 3:
+            r.shuffle(combos)
+            combos = combos[:96]
         for combo in combos:
             decls = [("G%d" % i, q, d) for i, (q, d) in enumerate(combo)]
             sups = list(itertools.product(supplies, repeat=ng))
             if ng >= 2:
                 r.shuffle(sups)
-                keep = sups[: (6 if tier == "quick" else (64 if ng == 2 else 10))]
+                keep = sups[: (6 if tier == "quick" else (24 if ng == 2 else 8))]
                 # always: the first global takes its default (or is missing) while a later one is absent / wrongly typed
-                must = [sp for sp in sups if sp[0] == "absent" and any(x in ("absent", "str", "int") for x in sp[1:])][: (3 if tier == "quick" else 40)]
+                must = [sp for sp in sups if sp[0] == "absent" and any(x in ("absent", "str", "int") for x in sp[1:])][: (3 if tier == "quick" else (16 if ng == 2 else 8))]
                 sups = keep + [m for m in must if m not in keep]
             for sup in sups:
                 glob, outer = {}, []
